@@ -670,7 +670,13 @@ class CircuitDAG(CircuitBase):
                 if gate_class is not None:
                     circuit.add(gate_class(register=reg, reg_type=reg_type))
                 else:
-                    circuit_list = [ops.name_to_class_map(letter) for letter in name]
+                    circuit_list = []
+                    remaining = name
+                    while remaining:
+                        # "sdg" is the only gate name with more than one letter
+                        token = "sdg" if remaining.startswith("sdg") else remaining[0]
+                        circuit_list.append(ops.name_to_class_map(token))
+                        remaining = remaining[len(token) :]
                     assert None not in circuit_list, (
                         f"Gate not recognized, parsing invalid/"
                         f"{name} parsed to {circuit_list}"
